@@ -50,10 +50,19 @@ def pieceNM (b : ClosedBin α) (p q yp yq : α) : α × α :=
   let s := (yq - yp) / (q - p)
   (n, yp * n + s * (b.A * PkCore b.a 2 p q - p * n))
 
-/-- progenitor masses in `[p, q]` at which the (linear) remnant mass crosses one of the `edges` -/
-def crossings (p q yp yq : α) (edges : List α) : List α :=
+/-- bisection for the progenitor mass in `[lo, hi]` at which `g` crosses the level `e` (`up`: `g lo < e < g hi`) -/
+def bisect (g : α → α) (e : α) (up : Bool) : Nat → α → α → α
+  | 0, lo, hi => (5e-1) * (lo + hi)
+  | n + 1, lo, hi =>
+    let mid := (5e-1) * (lo + hi)
+    if (lt (g mid) e) == up then bisect g e up n mid hi else bisect g e up n lo mid
+
+/-- progenitor masses in `[p, q]` at which the remnant mass `g` (monotone inside a cell) crosses one of the `edges` -/
+def crossings (g : α → α) (p q yp yq : α) (edges : List α) : List α :=
   edges.filterMap fun e =>
-    if (lt yp e && lt e yq) || (lt yq e && lt e yp) then some (p + (e - yp) / (yq - yp) * (q - p)) else none
+    if lt yp e && lt e yq then some (bisect g e true 60 p q)
+    else if lt yq e && lt e yp then some (bisect g e false 60 p q)
+    else none
 
 /-- add `(dN, dM)` to bin `i` of a list of `(N, M)` -/
 def addAt : List (α × α) → Nat → α × α → List (α × α)
@@ -76,21 +85,28 @@ def RemAcc.add (acc : RemAcc α) (c : SevCfg α) (cls : RemClass) (y : α) (d : 
     | .BH => { acc with bh := addAt acc.bh i d }
   | .error _ => { acc with lost := acc.lost + d.1 }
 
-/-- deposit the progenitors of one cell `[p, q]` (inside one star bin, above the turn-off, one remnant class) -/
+/-- the remnant-mass branch of a given class, evaluated without re-deciding the class (continuous up to the cell's end points) -/
+def predictAs (f : IfmrFn α) : RemClass → α → α
+  | .WD, m => f.wdFn m
+  | .NS, _ => f.nsMass
+  | .BH, m => f.bhFn m
+
+/-- deposit the progenitors of one cell `[p, q]` (inside one star bin, above the turn-off, one remnant class, remnant mass
+    continuous and monotone inside): cut where the remnant mass crosses a remnant-bin edge, each piece with the remnant mass
+    taken linear between its ends. End points are evaluated just inside the cell (IFMRs may jump at a cell boundary). -/
 def depositCell (c : SevCfg α) (b : ClosedBin α) (acc : RemAcc α) (p q : α) : RemAcc α :=
   let mid := (5e-1) * (p + q)
   let cls := predictType c.ifmr mid
-  let yp := predict c.ifmr p
-  let yq := predict c.ifmr q
+  let g := predictAs c.ifmr cls
+  let d := (q - p) * (1e-12)
+  let gi (x : α) : α := if le x p then g (p + d) else if le q x then g (q - d) else g x
   let edges := (c.remBins cls).map (·.1) ++ (match (c.remBins cls).getLast? with | some e => [e.2] | none => [])
-  let cuts := sortL (crossings p q yp yq edges)
+  let cuts := sortL (crossings gi p q (gi p) (gi q) edges)
   let pts := p :: cuts ++ [q]
   let rec go : List α → RemAcc α → RemAcc α
     | x0 :: x1 :: t, a =>
-      let y0 := yp + (yq - yp) * ((x0 - p) / (q - p))
-      let y1 := yp + (yq - yp) * ((x1 - p) / (q - p))
-      let ymid := (5e-1) * (y0 + y1)
-      let (n, m) := pieceNM b x0 x1 y0 y1
+      let (n, m) := pieceNM b x0 x1 (gi x0) (gi x1)
+      let ymid := gi ((5e-1) * (x0 + x1))
       let f := c.frem cls
       go (x1 :: t) (if lt 0 ymid && lt x0 x1 then a.add c cls ymid (f * n, f * m) else a)
     | _, a => a
